@@ -26,7 +26,7 @@ pub struct OpSpec {
     pub k:      String,
     pub o:      usize,
     pub g:      usize,
-    pub aw:     Vec<usize>,
+    pub aw:     Vec<i64>,
     pub body:   Vec<OpSpec>,
     pub panic:  bool,
     pub block:  usize,
@@ -55,7 +55,7 @@ fn parse_op(v: &Value) -> OpSpec {
         k:      v["k"].as_str().unwrap_or("").to_string(),
         o:      v["o"].as_u64().unwrap_or(0) as usize,
         g:      v["g"].as_u64().unwrap_or(0) as usize,
-        aw:     v["aw"].as_array().map(|a| a.iter().map(|g| g.as_u64().unwrap_or(0) as usize).collect()).unwrap_or_else(|| vec![]),
+        aw:     v["aw"].as_array().map(|a| a.iter().map(|g| g.as_i64().unwrap_or(0)).collect()).unwrap_or_else(|| vec![]),
         body:   v["body"].as_array().map(|a| a.iter().map(parse_op).collect()).unwrap_or_else(|| vec![]),
         panic:  v["panic"].as_bool().unwrap_or(false),
         block:  v["block"].as_u64().unwrap_or(0) as usize,
@@ -125,6 +125,16 @@ impl Future for GateFuture {
     fn poll(self: Pin<&mut Self>, context: &mut Context) -> Poll<()> {
         let mut gate = self.ctx.gates[self.gate - 1].lock().unwrap();
         if gate.fired { Poll::Ready(()) } else { gate.waker = Some(context.waker().clone()); Poll::Pending }
+    }
+}
+
+/// Yields to the scheduler before every poll of the inner future
+struct YieldThenPoll<F> { sched: &'static Sched, inner: F }
+impl<F: Future + Unpin> Future for YieldThenPoll<F> {
+    type Output = F::Output;
+    fn poll(mut self: Pin<&mut Self>, context: &mut Context) -> Poll<F::Output> {
+        self.sched.yield_now("resumed");
+        Pin::new(&mut self.inner).poll(context)
     }
 }
 
@@ -219,13 +229,22 @@ fn future_body(ctx: Arc<Ctx>, op: OpSpec) -> BoxFuture<'static, i64> {
         ctx.sched.obs("start", op.id, 0);
         let mut guard = EndGuard { ctx: Arc::clone(&ctx), id: op.id, ended: false };
         ctx.sched.yield_now("body");
-        if !op.body.is_empty() {
-            let mut slots = Slots::default();
-            for nested in op.body.iter() { exec_op(&ctx, nested, &mut slots); }
-        }
-        for gate in op.aw.iter() {
-            GateFuture { ctx: Arc::clone(&ctx), gate: *gate }.await;
-            ctx.sched.yield_now("resumed");
+        let mut slots = Slots::default();
+        for nested in op.body.iter() { exec_op(&ctx, nested, &mut slots); }
+        for item in op.aw.iter() {
+            if *item > 0 {
+                GateFuture { ctx: Arc::clone(&ctx), gate: *item as usize }.await;
+                ctx.sched.yield_now("resumed");
+            } else {
+                // a real nested await of a future created by one of the nested operations (polled with the outer context's waker)
+                let fut_id = -*item;
+                let code = match slots.slots.remove(&fut_id) {
+                    Some(Slot::Sched(f, expected))  => YieldThenPoll { sched: ctx.sched, inner: f }.map(move |r| code_of(r, expected)).await,
+                    Some(Slot::Code(f, keep))       => { let code = YieldThenPoll { sched: ctx.sched, inner: f }.await; std::mem::drop(keep); code }
+                    _                               => panic!("nested await: no future {}", fut_id)
+                };
+                ctx.sched.obs("resolved", fut_id, code);
+            }
         }
         if op.panic { ctx.sched.obs("panic", op.id, 0); guard.ended = true; panic!("scenario panic in op {}", op.id); }
         guard.ended = true;
